@@ -1,15 +1,17 @@
 """C15 — private keys and shares never leave the node (PARTIAL: model noninterference + reader list + byte scan)."""
 import base64, glob, json, os, re
-from .. import core
+from .. import core, savetrace
 
 ID = "C15"
 MODULE = "DrandProofs.C15"
 THEOREMS = ["Drand.Secrecy." + t for t in [
-    "tie_rwFilePermission", "tie_dkgPerm_variant", "tie_createSecureFile", "tie_saveShape", "tie_saveCallSites",
+    "tie_rwFilePermission", "tie_dkgPerm_variant", "tie_createSecureFile", "tie_saveShape", "tie_saveTarget", "tie_saveCallSites",
     "tie_secretTomlers", "tie_dkgStore", "tie_fileCreators", "tie_fileTable",
     "c15_noninterference", "c15_signing_only_via_sign", "c15_dkg_only_via_deal", "c15_secret_only_through_crypto",
     "c15_channel_inventory", "c15_readers_allowed", "c15_readers_exact", "c15_no_secret_sinks", "c15_secret_saves_secure",
     "c15_secret_file_classes", "c15_secure_save_never_exposes", "c15_secure_save_final_mode", "c15_plain_save_exposes",
+    "c15_secure_save_atomic_never_exposes", "c15_secure_save_atomic_final", "c15_plain_save_atomic_mode",
+    "c15_secure_save_inplace_never_exposes", "c15_secure_save_code_never_exposes",
     "c15_plain_save_keeps_mode", "c15_modes_general", "c15_modes_fixed", "c15_modes_partial", "c15_modes_counterexample",
     "c15_modes_code", "c15_isInfix_iff", "c15_scan_complete", "c15_scan_sound"]]
 TRUSTED = [
@@ -19,6 +21,11 @@ TRUSTED = [
     "harness engine 'secrecy': real daemons in one process, recording TCP proxies in front of every private and control port, HTTP/2+HPACK de-framing by golang.org/x/net/http2, one debug log sink per node, stdout capture, syscall.Umask",
     "the crypto oracle of the model (sign, deal): that a signature / an encrypted deal does not reveal its key is an assumption (IdealSig / encryption), not proved",
     "python scanner (bytes.find) cross-checked against the Lean scanner `leak` (proved sound and complete for the 7 listed encodings) on every captured chunk and on planted positive controls",
+    "harness engine 'savetrace' under strace (openat, close, write, rename*, unlink*, chmod, fchmod*, fsync): the real key store's Save "
+    "calls; vlib/savetrace.py replays the recorded system calls on a POSIX file model (path -> mode, content; fd -> path, offset) and "
+    "evaluates the mode oracle after every call on every file below the folder, whatever its name (so the temporary file of a "
+    "write-then-rename Save is covered); the replay's final state must equal stat + read of the real folder; skipped (and said so in "
+    "evidence) when strace is not installed",
     "modelled, not verified: POSIX open/chmod/umask semantics (mode of a new file = perm &^ umask; chmod ignores umask; O_TRUNC keeps the mode), bbolt's Open(path, mode) = os.OpenFile(O_CREATE, mode)",
 ]
 ASSUMPTIONS = [
@@ -320,6 +327,46 @@ def _explore(ctx, res, tier):
         if f["cls"].startswith("other:"):
             unmodelled_files[f["rel"]] = unmodelled_files.get(f["rel"], 0) + 1
 
+    # ---- P5c: every file that ever holds a secret DURING key.Save (temporary file included), from the recorded system calls
+    st_info = {"strace": savetrace.have_strace(), "runs": []}
+    save_model_ops = []   # (driver op line, observed answer, scenario ops)
+    if st_info["strace"]:
+        G = "multibeacon/default/groups/"
+        for um in ([0o022, 0] if tier == "quick" else [0, 0o022, 0o027, 0o077, 0o002]):
+            td = savetrace.run(seed, um)
+            rp = savetrace.replay(td, um)
+            evaluations += rp.n_calls
+            sc = [f"strace -f -e trace={savetrace.TRACE_SET} verifh savetrace {seed} {um:o}"]
+            for marker, what, rel, mode, kind in rp.exposures:
+                base = rel.split("/")[-1]
+                viol.append((f"file-mode:{base}:while-saving:{perm_suffix(mode & 0o77)}",
+                             {"engine": "savetrace", "kind": "impl-violates", "ops": sc + [marker, what],
+                              "observed": [f"after {what} the file {rel} has mode {mode:04o} and its content holds the {kind} scalar"],
+                              "oracle": "at every moment of key.Save, every file whose content contains the share / long-term scalar — the temporary file "
+                                        "included — must have mode & 077 = 0", "harness_args_savetrace": [str(seed), f"{um:o}"]}))
+            bad_calls = [(n, w, r_) for n, w, r_ in td["calls"] if (r_ != "ok") != (n == 8)]
+            if bad_calls:
+                raise core.Broken("harness:savetrace", f"unexpected results {bad_calls[:3]}")
+            err_text = [r_ for n, w, r_ in td["calls"] if n == 8][0].encode()
+            for k, v in td["secrets"].items():
+                evaluations += 1
+                if v.encode() in err_text or bytes.fromhex(v) in err_text:
+                    viol.append((f"leak:log:node:{k.split('-')[0]}:hex",
+                                 {"engine": "savetrace", "kind": "impl-violates", "ops": sc + ["CALL 8 SaveShare into a missing folder"],
+                                  "observed": [err_text.decode("latin-1")[:300]], "oracle": "the error key.Save returns (it is logged verbatim) must not carry the value being saved"}))
+            observed = {}
+            for call_no, sec, tgt in ((2, 1, "dist_key.private"), (3, 1, "dist_key.private"), (5, 1, "dist_key.private"),
+                                      (6, 0, "drand_group.toml"), (7, 0, "drand_group.toml")):
+                ss = savetrace.save_states(rp, call_no, G + tgt, G + tgt + ".tmp")
+                if ss is None:
+                    raise core.Broken("harness:savetrace", f"no recorded system call for CALL {call_no}")
+                pre = ["-" if m is None else f"{m:o}" for m in ss["pre"]]
+                observed[call_no] = ("rename " if ss["renamed"] else "inplace ") + " ".join(ss["states"])
+                save_model_ops.append((f"save {sec} {um:o} {pre[0]} {pre[1]}", observed[call_no], sc + [f"CALL {call_no}"]))
+            st_info["runs"].append({"umask": f"{um:03o}", "system_calls_replayed": len(td["events"]), "oracle_evaluations": rp.n_calls,
+                                    "exposures": len(rp.exposures), "share_save_fresh": observed[2], "share_save_over_stale_tmp": observed[5],
+                                    "group_save_again": observed[7]})
+
     # ---- corpus: the recorded witnesses must be among the cases this run evaluated
     corpus_state = {}
     for cf in sorted(glob.glob(os.path.join(core.VERIF, "corpus", ID, "*.json"))):
@@ -384,6 +431,9 @@ def _explore(ctx, res, tier):
     for s, c, _ in scan_jobs:
         model_lines.append(f"scan {s['raw'].hex()} {c.hex() if c else '-'}")
         tags.append(("scan", None))
+    for line, obs, sc in save_model_ops:
+        model_lines.append(line)
+        tags.append(("save", (obs, sc)))
 
     validated = 0
     diverged = None
@@ -404,6 +454,15 @@ def _explore(ctx, res, tier):
                                 "observed": [f"mode {f['mode']:04o} " + ("holds a secret" if f["found"] else "no secret found")], "expected": [ans],
                                 "note": "file table of the model (creator, mode under umask, secrecy) no longer matches the files the real code writes"}
                 elif ok:
+                    validated += 1
+            elif kind == "save":
+                obs, sc = obj
+                if ans != obs and diverged is None:
+                    diverged = {"ops": sc + [line], "observed": [obs], "expected": [ans],
+                                "note": "the states (mode, content) the target and its temporary sibling go through during the real key.Save, as "
+                                        "reconstructed from the recorded system calls, are not the ones the model's Save protocol "
+                                        "(Drand.Secrecy.codeSaveProtocol, variant from Gen.saveRenamesOverTarget) goes through"}
+                elif ans == obs:
                     validated += 1
             elif kind == "chan":
                 if ans == "unknown-channel":
@@ -484,4 +543,5 @@ def _explore(ctx, res, tier):
         "noninterference_twins": {"pairs": len(d["twins"]), "schemes": [t[1] for t in d["twins"]], "answers_compared": len(d["ni"]), "equal": ni_equal,
                                   "endpoints": sorted({x["label"] for x in d["ni"]})},
         "corpus": corpus_state, "violation_signatures": sorted(seen_sig), "attempts": attempts,
+        "save_under_syscall_recorder": st_info,
     }
